@@ -109,6 +109,14 @@ func (r *Runner) Evaluate(sc Scenario, pushedPlain map[int]bool) {
 		}
 	}
 	v1 := append(CheckDuplicates(out.World, out.Trace), CheckOrder(out.World, out.Trace, init)...)
+	if r.Opt.FailC01 && len(v1) == 0 {
+		// the position has passed every entry after the final recovery: an undelivered one was skipped silently
+		for _, v := range v2 {
+			if v.Key != "c02-lost-plain-update" {
+				v1 = append(v1, Violation{Key: "c01-manager-skipped-position", Detail: v.Detail})
+			}
+		}
+	}
 	for _, v := range v1 {
 		if r.Opt.FailC01 {
 			c.Fail(v.Key, line, v.Detail)
@@ -219,7 +227,7 @@ func (r *Runner) restart(sc Scenario, first Outcome, i int, line string) {
 	}
 	seen := map[string]bool{}
 	for _, en := range out.World.Log {
-		if en.Kind == KPlain || before[en.ID] || after[en.ID] || tl[en.Seq()] || en.Pos <= initialOf(out.World, en.Seq()) {
+		if en.Kind == KPlain || en.IsMarker() || before[en.ID] || after[en.ID] || tl[en.Seq()] || en.Pos <= initialOf(out.World, en.Seq()) {
 			continue
 		}
 		key := "c03-restart-lost-update"
@@ -432,6 +440,16 @@ func Fixed() []Scenario {
 		{P0: 10, Q0: 0, C0: map[int64]int{5: 5}, Log: []Entry{{ID: 1, Kind: KMsg, Pos: 11, Count: 1}, {ID: 2, Kind: KChMsg, Chan: 5, Pos: 6, Count: 1},
 			{ID: 3, Kind: KOther, Pos: 13, Count: 2}, {ID: 4, Kind: KQts, Pos: 1, Count: 1}, {ID: 5, Kind: KPlain}, {ID: 6, Kind: KChOther, Chan: 5, Pos: 8, Count: 2}, {ID: 7, Kind: KQOther, Pos: 2, Count: 1}},
 			Actions: []Action{{Op: "p", IDs: []int{1}}, {Op: "p", IDs: []int{2}}, {Op: "p", IDs: []int{4, 3}}, {Op: "p", IDs: []int{5, 6, 7}}}},
+		// an affected result of the client's own action in a channel is overtaken by two live updates
+		// of that channel; it arrives last and closes the hole: batch [marker, msg, msg]
+		{P0: 10, Q0: 0, C0: map[int64]int{5: 5}, Log: []Entry{{ID: 1, Kind: KChAff, Chan: 5, Pos: 6, Count: 1}, {ID: 2, Kind: KChMsg, Chan: 5, Pos: 7, Count: 1}, {ID: 3, Kind: KChMsg, Chan: 5, Pos: 8, Count: 1}},
+			Actions: []Action{{Op: "p", IDs: []int{2}}, {Op: "p", IDs: []int{3}}, {Op: "a", IDs: []int{1}}}},
+		// the same on the common sequence, with a two-position marker, plus count-0 results
+		{P0: 10, Q0: 0, C0: map[int64]int{5: 5}, Log: []Entry{{ID: 1, Kind: KAff, Pos: 12, Count: 2}, {ID: 2, Kind: KMsg, Pos: 13, Count: 1}, {ID: 3, Kind: KOther, Pos: 15, Count: 2}},
+			Actions: []Action{{Op: "z", C: 0}, {Op: "p", IDs: []int{3}}, {Op: "p", IDs: []int{2}}, {Op: "a", IDs: []int{1}}, {Op: "z", C: 0}, {Op: "z", C: 5}}},
+		// a marker in order, a marker lost (recovered by the difference's state), a late marker (outdated)
+		{P0: 10, Q0: 0, C0: map[int64]int{5: 5}, Log: []Entry{{ID: 1, Kind: KAff, Pos: 11, Count: 1}, {ID: 2, Kind: KMsg, Pos: 12, Count: 1}, {ID: 3, Kind: KAff, Pos: 13, Count: 1}, {ID: 4, Kind: KChAff, Chan: 5, Pos: 7, Count: 2}, {ID: 5, Kind: KChMsg, Chan: 5, Pos: 8, Count: 1}},
+			Actions: []Action{{Op: "a", IDs: []int{1}}, {Op: "p", IDs: []int{2}}, {Op: "e", N: 3}, {Op: "T"}, {Op: "a", IDs: []int{3}}, {Op: "CT", C: 5}, {Op: "a", IDs: []int{4}}}},
 		// a gap filled by a late arrival; a duplicate; sliced recovery
 		{P0: 10, Q0: 0, C0: map[int64]int{}, Log: []Entry{{ID: 1, Kind: KMsg, Pos: 11, Count: 1}, {ID: 2, Kind: KOther, Pos: 13, Count: 2}, {ID: 3, Kind: KMsg, Pos: 14, Count: 1}, {ID: 4, Kind: KMsg, Pos: 15, Count: 1}},
 			Actions: []Action{{Op: "p", IDs: []int{2}}, {Op: "p", IDs: []int{1}}, {Op: "p", IDs: []int{1}}, {Op: "e", N: 2}, {Op: "sl", N: 1}, {Op: "T"}}},
